@@ -16,21 +16,29 @@ func (u *Unit) memKey(t types.Type) (string, Sort) {
 }
 
 func (u *Unit) getMem(st *State, key string, elem Sort) Term {
-	if m, ok := st.Mem[key]; ok {
-		return m
+	if _, ok := st.Mem[key]; !ok {
+		name := "M0_" + sanitize(key)
+		if len(name) > 80 {
+			name = fmt.Sprintf("%s_%d", name[:80], len(key))
+		}
+		st.Mem[key] = u.Const(name, ArrSort(SV, elem))
+		st.MemSort[key] = elem
+		st.MemEpoch[key] = 0
 	}
-	name := "M0_" + sanitize(key)
-	if len(name) > 80 {
-		name = fmt.Sprintf("%s_%d", name[:80], len(key))
-	}
-	m := u.Const(name, ArrSort(SV, elem))
-	st.Mem[key] = m
-	st.MemSort[key] = elem
-	// replay whole-heap havocs that happened before this key was first touched
-	for _, pred := range st.AllHavocs {
-		u.havocKey(st, key, pred)
+	// whole-heap havocs are applied lazily, when a key is next touched
+	if !strings.HasPrefix(key, "ghost:") {
+		for st.MemEpoch[key] < len(st.AllHavocs) {
+			pred := st.AllHavocs[st.MemEpoch[key]]
+			st.MemEpoch[key]++
+			u.havocKey(st, key, pred)
+		}
 	}
 	return st.Mem[key]
+}
+
+// curMem returns the up-to-date memory term of a key that already exists.
+func (u *Unit) curMem(st *State, key string) Term {
+	return u.getMem(st, key, st.MemSort[key])
 }
 
 func (u *Unit) isAllocAtom(t Term) bool {
@@ -169,7 +177,7 @@ func (u *Unit) selectMem(st *State, m, addr Term, so Sort, depth int) Term {
 		break
 	}
 	if m.Op == "" {
-		if d, ok := st.Derivs[m.A]; ok && depth < 6 {
+		if d, ok := st.Derivs[m.A]; ok && depth < 200 {
 			mod := d.Modified(addr)
 			if isFalse(mod) {
 				return u.selectMem(st, d.Old, addr, so, depth+1)
@@ -177,11 +185,11 @@ func (u *Unit) selectMem(st *State, m, addr Term, so Sort, depth int) Term {
 			sel := App("select", so, m, addr)
 			if !isTrue(mod) {
 				old := u.selectMem(st, d.Old, addr, so, depth+1)
-				st.Assume(Implies(Not(mod), Eq(sel, old)))
+				u.Axiom(Implies(Not(mod), Eq(sel, old))) // definition of the havocked memory
 			}
 			if d.NewVal != nil {
 				if nv, ok := d.NewVal(addr); ok {
-					st.Assume(Implies(mod, Eq(sel, nv)))
+					u.Axiom(Implies(mod, Eq(sel, nv)))
 				}
 			}
 			return sel
@@ -217,7 +225,7 @@ func (u *Unit) havocMem(st *State, key string, modified func(addr Term) Term) {
 	if !ok {
 		return // never touched on this path: any later first use is unconstrained anyway
 	}
-	old := st.Mem[key]
+	old := u.curMem(st, key)
 	nm := u.Fresh("M_"+shorten(sanitize(key), 40), ArrSort(SV, so))
 	st.Derivs[nm.A] = &MemDeriv{Old: old, Elem: so, Kind: "frame", Modified: modified}
 	st.Mem[key] = nm
@@ -279,7 +287,8 @@ func (u *Unit) mapValOf(st *State, mt *types.Map, m Term) Term {
 
 func (u *Unit) mapLenOf(st *State, mt *types.Map, m Term) Term {
 	l := u.selectMem(st, u.mapLenArr(st, mt), m, SInt, 0)
-	st.Assume(Ge(l, IntLit(0)))
+	u.Axiom(Ge(l, IntLit(0)))
+	u.Axiom(Implies(Eq(m, NilV), Eq(l, IntLit(0))))
 	return l
 }
 
@@ -291,8 +300,8 @@ func (u *Unit) mapLookup(st *State, mt *types.Map, m, k Term) (has Term, val Ter
 	has = Select(hasArr, k, SBool, nil)
 	val = Select(valArr, k, es, nil)
 	// nil map has no keys; a present key implies len >= 1
-	st.Assume(Implies(Eq(m, NilV), Not(has)))
-	st.Assume(Implies(has, Ge(u.mapLenOf(st, mt, m), IntLit(1))))
+	u.Axiom(Implies(Eq(m, NilV), Not(has)))
+	u.Axiom(Implies(has, Ge(u.mapLenOf(st, mt, m), IntLit(1))))
 	return has, val
 }
 
@@ -304,9 +313,9 @@ func (u *Unit) mapUpdate(st *State, mt *types.Map, m, k, v Term) {
 	kh := "maphas:" + typeKey(mt)
 	kv := "mapval:" + typeKey(mt)
 	kl := "maplen:" + typeKey(mt)
-	st.Mem[kh] = Store(st.Mem[kh], m, Store(hasArr, k, True))
-	st.Mem[kv] = Store(st.Mem[kv], m, Store(valArr, k, v))
-	st.Mem[kl] = Store(st.Mem[kl], m, Ite(had, l, Add(l, IntLit(1))))
+	st.Mem[kh] = Store(u.curMem(st, kh), m, Store(hasArr, k, True))
+	st.Mem[kv] = Store(u.curMem(st, kv), m, Store(valArr, k, v))
+	st.Mem[kl] = Store(u.curMem(st, kl), m, Ite(had, l, Add(l, IntLit(1))))
 }
 
 func (u *Unit) mapDelete(st *State, mt *types.Map, m, k Term) {
@@ -315,8 +324,8 @@ func (u *Unit) mapDelete(st *State, mt *types.Map, m, k Term) {
 	had := Select(hasArr, k, SBool, nil)
 	kh := "maphas:" + typeKey(mt)
 	kl := "maplen:" + typeKey(mt)
-	st.Mem[kh] = Store(st.Mem[kh], m, Store(hasArr, k, False))
-	st.Mem[kl] = Store(st.Mem[kl], m, Ite(had, Sub(l, IntLit(1)), l))
+	st.Mem[kh] = Store(u.curMem(st, kh), m, Store(hasArr, k, False))
+	st.Mem[kl] = Store(u.curMem(st, kl), m, Ite(had, Sub(l, IntLit(1)), l))
 }
 
 func (u *Unit) newMap(st *State, mt *types.Map) Term {
@@ -330,8 +339,8 @@ func (u *Unit) newMap(st *State, mt *types.Map) Term {
 	u.mapLenArr(st, mt)
 	u.mapValArr(st, mt)
 	_ = es
-	st.Mem[kh] = Store(st.Mem[kh], m, emptyHas)
-	st.Mem[kl] = Store(st.Mem[kl], m, IntLit(0))
+	st.Mem[kh] = Store(u.curMem(st, kh), m, emptyHas)
+	st.Mem[kl] = Store(u.curMem(st, kl), m, IntLit(0))
 	return m
 }
 
